@@ -50,7 +50,7 @@ PLUGINS = {
 
 
 class Env(object):
-    def __init__(self, spec, versioned=True, db_path=None, autoflush=False, create=True):
+    def __init__(self, spec, versioned=True, db_path=None, autoflush=False, create=True, join_mode=None):
         self.spec = spec
         self.versioned = versioned
         self.classes = {}
@@ -78,7 +78,13 @@ class Env(object):
             if create:
                 self.Base.metadata.create_all(self.conn)
                 self.conn.commit()
-            self.Session = sessionmaker(bind=self.conn, autoflush=autoflush)
+            if join_mode:
+                # the "join a Session into an external transaction" recipe: every session-level
+                # transaction is a SAVEPOINT of one connection-level transaction that is never committed
+                self.outer = self.conn.begin()
+                self.Session = sessionmaker(bind=self.conn, autoflush=autoflush, join_transaction_mode=join_mode)
+            else:
+                self.Session = sessionmaker(bind=self.conn, autoflush=autoflush)
             self.s = self.Session()
         except BaseException:
             self.close()
@@ -219,7 +225,10 @@ class Env(object):
                         s.close()
                     except Exception:
                         pass
-            close_all_sessions()
+            try:
+                close_all_sessions()
+            except Exception:
+                pass       # a leftover private version session whose savepoint went with the outer one (join_mode)
             if getattr(self, 'conn', None) is not None:
                 try:
                     self.conn.close()
